@@ -41,7 +41,13 @@ macro_rules! all_types {
             gens::PairGen: 48,
             gens::DomPairGen: 48,
             gens::SimpleGen<lattices::Conflict<u8>>: 16,
-            gens::SimpleGen<lattices::Point<u8, ()>>: 6,
+            gens::SimpleGen<lattices::Point<u8, ()>>: 8,
+            gens::DomPairPointGen: 16,
+            gens::PairPointGen: 16,
+            gens::DerivedPointGen: 16,
+            gens::SimpleGen<lattices::WithTop<lattices::Max<bool>>>: 12,
+            gens::SimpleGen<lattices::WithTop<lattices::Min<u32>>>: 12,
+            gens::SimpleGen<lattices::WithTop<lattices::WithTop<lattices::set_union::SetUnionHashSet<u8>>>>: 12,
             gens::VecUnionGen: 48,
             gens::UnionFindGen: 48,
             gens::SimpleGen<()>: 2,
@@ -58,7 +64,7 @@ macro_rules! all_types {
 }
 
 const REAL_LATTICES: &[&str] = &[
-    "lattices::{Merge, LatticeFrom, IsBot, PartialEq, PartialOrd} impls of SetUnion (HashSet/BTreeSet replicas; HashSet/BTreeSet/Vec/ArraySet/OptionSet/SingletonSet on the wire), MapUnion (HashMap/BTreeMap replicas; + VecMap/ArrayMap/OptionMap/SingletonMap on the wire) of Max, of SetUnion, of WithBot<Max>; Max, Min, WithBot<SetUnion>, WithTop<SetUnion>, Pair<SetUnion, MapUnion<Max>>, DomPair<Max, SetUnion>, Conflict, Point, VecUnion<SetUnion>, UnionFind (HashMap/BTreeMap replicas, six wire carriers), ()",
+    "lattices::{Merge, LatticeFrom, IsBot, PartialEq, PartialOrd} impls of SetUnion (HashSet/BTreeSet replicas; HashSet/BTreeSet/Vec/ArraySet/OptionSet/SingletonSet on the wire), MapUnion (HashMap/BTreeMap replicas; + VecMap/ArrayMap/OptionMap/SingletonMap on the wire) of Max, of SetUnion, of WithBot<Max>; Max, Min, WithBot<SetUnion>, WithTop<SetUnion>, Pair<SetUnion, MapUnion<Max>>, DomPair<Max, SetUnion>, Conflict, Point (alone and nested: DomPair<Max, Point>, Pair<SetUnion, Point>, a derived struct field), WithTop<Max<bool>>, WithTop<Min<u32>>, WithTop<WithTop<SetUnion>>, VecUnion<SetUnion>, UnionFind (HashMap/BTreeMap replicas, six wire carriers), ()",
     "lattices_macro #[derive(Lattice)] on a named three-field generic struct and on a tuple struct",
     "SetUnionWithTombstones / MapUnionWithTombstones with HashSet, RoaringTombstoneSet and FstTombstoneSet<String> tombstone back ends (lattices::tombstone), delta forms SingletonSet/EmptySet/OptionSet/Vec/SingletonMap/EmptyMap/VecMap",
 ];
@@ -79,7 +85,7 @@ fn main() {
                 scenarios: all_types!(c01),
                 quick_runs: 400_000,
                 thorough_runs: 20_000_000,
-                rule: "one scenario per lattice type; each run draws knobs (3-5 replicas, horizon, drop/duplicate rates, jitter, slow replica, gossip and persist periods, crash and partition episodes, carriers per replica, element domain 2-4) and then a schedule: 0-6 local updates per replica (merge of a generated delta, wire carriers differ from replica carriers), periodic state-push gossip, message fates; then n fault-free anti-entropy rounds. Distinct = distinct hash of the realised decision trace (+ scenario); non-trivial = at least one update was issued AND at least one message was delivered AND at least one fault fired (drop, duplicate, reorder, partition drop, crash, slow replica, loss at a down replica).",
+                rule: "one scenario per lattice type; each run draws knobs (3-5 replicas, horizon, drop/duplicate rates, jitter, slow replica, gossip and persist periods, crash and partition episodes, carriers per replica, element domain 2-4) and then a schedule: 0-6 local updates per replica (merge of a generated delta, wire carriers differ from replica carriers), periodic state-push gossip, message fates; then n fault-free anti-entropy rounds. Types containing a Point are additionally offered, at a seeded subset of deliveries and on a clone, a message whose point value differs from the receiver's: that merge must be refused (panic, caught inside the scenario); returning normally is a violation. Distinct = distinct hash of the realised decision trace (+ scenario); non-trivial = at least one update was issued AND at least one message was delivered AND at least one fault fired (drop, duplicate, reorder, partition drop, crash, slow replica, loss at a down replica).",
                 time_unit: "events",
                 real: REAL_LATTICES,
                 stubs: STUBS,
@@ -90,7 +96,7 @@ fn main() {
                     "array/vec wire carriers are generated duplicate-free; union-find wire maps are arbitrary (item,parent) edge lists",
                     "a mutant that stays a semilattice under the type's own equality (e.g. MapUnion keeping bottom-valued keys) is invisible to C01 by definition; C02 sees it",
                 ],
-                required_probes: &["partition_drop", "crash_restart", "crash_lost_volatile_updates", "duplicate_delivered", "reordered", "fork_check", "redelivery_check", "fold_check", "flag_false", "flag_true", "issued_update_lost_unacknowledged"],
+                required_probes: &["partition_drop", "crash_restart", "crash_lost_volatile_updates", "duplicate_delivered", "reordered", "fork_check", "redelivery_check", "fold_check", "flag_false", "flag_true", "issued_update_lost_unacknowledged", "point_inequal_merge_refused"],
             },
             Prop {
                 id: "C02",
